@@ -36,7 +36,8 @@ theorem skel_NewMethodNameFormatter_shape :
   "return func{…}",
   "  formattedMethod := method",
   "  if nameCase == LowerFirstCharCase && len(method) > 0",
-  "    formattedMethod = strings.ToLower(method[:1]) + method[1:]",
+  "    r, size := utf8.DecodeRuneInString(method)",
+  "    formattedMethod = string(unicode.ToLower(r)) + method[size:]",
   "  if includeNamespace",
   "    return namespace + \".\" + formattedMethod",
   "  return formattedMethod"] := rfl
